@@ -208,8 +208,9 @@ structure Ok (env₁ : Env κ₁) (env₂ : Env κ₂) (inp : Bytes) : Prop wher
   jr_enter : ∀ c r, C.Jr r → C.Jr (enterSeqR c r)
   jr_leave : ∀ r, C.Jr r → C.Jr (leaveSeqR r)
   jr_adjust : ∀ r, C.Jr r → C.Jr (adjustR r)
-  jr_load : ∀ bm (l : LexRegs), C.Good (some (.directive .lex bm)) → C.Jr (.lexer l) →
+  jr_load_lex : ∀ bm (l : LexRegs), C.Good (some (.directive .lex bm)) →
     C.Jr (.lexer { l with lexemeStart := bm.pos, fd := bm.fd })
+  jr_load_scan : ∀ bm (s : ScanRegs), C.Good (some (.directive .scan bm)) → C.Jr (.scanner s)
 
 section
 variable {C} {env₁ : Env κ₁} {env₂ : Env κ₂} {inp : Bytes}
@@ -542,7 +543,8 @@ theorem runLoop_cong (h : C.Ok env₁ env₂ inp) (ht : EmitsChecked env₁.tbl 
 /-- related parsers: everything equal but the contexts, which are `Rx`-related -/
 def PR (C : Cong κ₁ κ₂) (p₁ : Parser κ₁) (p₂ : Parser κ₂) : Prop :=
   p₁.lexC = p₂.lexC ∧ p₁.lexR = p₂.lexR ∧ p₁.scanC = p₂.scanC ∧ p₁.scanR = p₂.scanR ∧
-  p₁.directive = p₂.directive ∧ C.Rx p₁.x p₂.x ∧ C.Jr (.lexer p₁.lexR) ∧ C.Jr (.scanner p₁.scanR)
+  p₁.directive = p₂.directive ∧ C.Rx p₁.x p₂.x ∧
+  C.Jr (match p₁.directive with | .lex => .lexer p₁.lexR | .scan => .scanner p₁.scanR)
 
 /-- how `Parser.parse` reports an error signal (parser/mod.rs:96-101) -/
 def sigErr : Err → Err
@@ -557,20 +559,30 @@ def POut (C : Cong κ₁ κ₂) (r₁ : Parser κ₁ × Except Err Nat) (r₂ : 
 
 theorem machine_cong {p₁ : Parser κ₁} {p₂ : Parser κ₂} (hp : C.PR p₁ p₂) (last : Bool) :
     C.MR (p₁.machine last) (p₂.machine last) := by
-  obtain ⟨h1, h2, h3, h4, h5, h6, j1, j2⟩ := hp
+  obtain ⟨h1, h2, h3, h4, h5, h6, j⟩ := hp
   unfold Parser.machine
   rw [← h5]
-  cases p₁.directive
-  · exact ⟨by simp only [h3], by simp only [h4], j2, h6⟩
-  · exact ⟨by simp only [h1], by simp only [h2], j1, h6⟩
+  cases hd : p₁.directive
+  · rw [hd] at j; exact ⟨by simp only [h3], by simp only [h4], j, h6⟩
+  · rw [hd] at j; exact ⟨by simp only [h1], by simp only [h2], j, h6⟩
 
 theorem store_cong {p₁ : Parser κ₁} {p₂ : Parser κ₂} (hp : C.PR p₁ p₂) {m₁ : M κ₁} {m₂ : M κ₂}
     (hm : C.MR m₁ m₂) : C.PR (p₁.store m₁) (p₂.store m₂) := by
-  obtain ⟨h1, h2, h3, h4, h5, h6, j1, j2⟩ := hp
+  obtain ⟨h1, h2, h3, h4, h5, h6, j⟩ := hp
   obtain ⟨c, r, x₁, x₂, rfl, rfl, hj, hx⟩ := hm.cases
   cases r with
-  | lexer l => exact ⟨rfl, rfl, h3, h4, h5, hx, hj, j2⟩
-  | scanner s => exact ⟨h1, h2, rfl, rfl, h5, hx, j1, hj⟩
+  | lexer l =>
+    refine ⟨rfl, rfl, h3, h4, h5, hx, ?_⟩
+    show C.Jr (match p₁.directive with | .lex => .lexer l | .scan => .scanner p₁.scanR)
+    cases hd : p₁.directive
+    · rw [hd] at j; exact j
+    · exact hj
+  | scanner s =>
+    refine ⟨h1, h2, rfl, rfl, h5, hx, ?_⟩
+    show C.Jr (match p₁.directive with | .lex => .lexer p₁.lexR | .scan => .scanner s)
+    cases hd : p₁.directive
+    · exact hj
+    · rw [hd] at j; exact j
 
 theorem store_x' {κ : Type} (p : Parser κ) (m : M κ) : (p.store m).x = m.x := by
   unfold Parser.store; split <;> rfl
@@ -578,11 +590,11 @@ theorem store_x' {κ : Type} (p : Parser κ) (m : M κ) : (p.store m).x = m.x :=
 theorem loadBookmark_cong (h : C.Ok env₁ env₂ inp) {p₁ : Parser κ₁} {p₂ : Parser κ₂} (hp : C.PR p₁ p₂)
     (d : Directive) (bm : Bookmark) (hg : C.Good (some (.directive d bm))) :
     C.PR (loadBookmark env₁ d bm p₁) (loadBookmark env₂ d bm p₂) := by
-  obtain ⟨h1, h2, h3, h4, h5, h6, j1, j2⟩ := hp
+  obtain ⟨h1, h2, h3, h4, h5, h6, j⟩ := hp
   unfold loadBookmark
   cases d
-  · exact ⟨h1, h2, by simp only [h3, h.tbl], h4, rfl, h6, j1, j2⟩
-  · exact ⟨by simp only [h1, h.tbl], by simp only [h2], h3, h4, rfl, h6, h.jr_load bm _ hg j1, j2⟩
+  · exact ⟨h1, h2, by simp only [h3, h.tbl], h4, rfl, h6, h.jr_load_scan bm _ hg⟩
+  · exact ⟨by simp only [h1, h.tbl], by simp only [h2], h3, h4, rfl, h6, h.jr_load_lex bm _ hg⟩
 
 theorem parseLoop_cong (h : C.Ok env₁ env₂ inp) (ht : EmitsChecked env₁.tbl = true) (last : Bool)
     (n : Nat) (p₁ : Parser κ₁) (p₂ : Parser κ₂) (hp : C.PR p₁ p₂) :
@@ -605,8 +617,8 @@ theorem parseLoop_cong (h : C.Ok env₁ env₂ inp) (ht : EmitsChecked env₁.tb
       cases hsg : (runLoop env₁ inp (defaultFuel inp) (p₁.machine last)).2 with
       | endOfInput consumed =>
         try simp only [hsg] at hg ⊢
-        obtain ⟨h1, h2, h3, h4, h5, h6, j1, j2⟩ := hst
-        exact .inr ⟨⟨h1, h2, h3, h4, h5, h.pc _ _ _ h6, j1, j2⟩, by first | rfl | trivial, fun e he => by cases he⟩
+        obtain ⟨h1, h2, h3, h4, h5, h6, j⟩ := hst
+        exact .inr ⟨⟨h1, h2, h3, h4, h5, h.pc _ _ _ h6, j⟩, by first | rfl | trivial, fun e he => by cases he⟩
       | directive d bm =>
         try simp only [hsg] at hg ⊢
         exact ih _ _ (loadBookmark_cong h hst d bm hg)
